@@ -10,6 +10,7 @@ import Protobom.Model.Cdx
 import Protobom.Model.Sniff
 import Protobom.Model.Parse
 import Protobom.Model.Ident
+import Protobom.Model.Opts
 
 namespace Protobom.Driver
 open Lean Protobom
@@ -398,6 +399,32 @@ def sniffInputOf (i : Json) : R Sniff.Input := do
     | _ => none
   pure ⟨decl, lines⟩
 
+/-! ### option histories (C18) -/
+
+def cellOf (j : Json) : Opts.Cell :=
+  match j with
+  | Json.arr a => a.toList.filterMap (fun x => match x with
+      | Json.arr #[Json.str k, Json.str v] => some (k, v) | _ => none)
+  | _ => []
+
+def jCell (c : Opts.Cell) : Json :=
+  -- canonical: keys sorted
+  let ks := (c.map (·.1)).eraseDups.mergeSort (fun a b => decide (a ≤ b))
+  Json.arr (ks.map (fun k => Json.arr #[Json.str k, Json.str ((c.lookup k).getD "")])).toArray
+
+def settingOf (j : Json) : R Opts.Setting := do
+  match optStr j "t" with
+  | "format" => pure (.format (optStr j "f"))
+  | "replace" => pure (.replace (← getNatD j "k") (cellOf ((j.getObjVal? "cell").toOption.getD Json.null)))
+  | "setKey" => pure (.setKey (← getNatD j "k") (optStr j "key") (optStr j "val"))
+  | t => throw s!"setting {t}"
+where getNatD (j : Json) (k : String) : R Nat := do
+  match j.getObjVal? k with
+  | .ok v => v.getNat?
+  | _ => pure 0
+
+def jCfg (c : Opts.Cfg) : Json := Json.mkObj [("format", Json.str c.1), ("cells", Json.arr (c.2.map jCell).toArray)]
+
 /-! ### dispatcher -/
 
 def getS (j : Json) (k : String) : R String := do (← j.getObjVal? k).getStr?
@@ -486,6 +513,43 @@ def run (j : Json) : R Json := do
       let c ← decodedOf i "cdx" bomOf
       let sp ← decodedOf i "spdx" (fun v => pure (spdxDocOf v))
       pure (jOutcome jDoc (Parse.parse (← sniffInputOf i) (some (← getS j "f")) c sp))
+  | "optsHist" => do
+      let cells := (← arrOf (← j.getObjVal? "defaults")).toList.map cellOf
+      let steps ← arrOf (← j.getObjVal? "steps")
+      let st0 := { store := fun p => cells.getD p [], next := cells.length,
+                   defaults := { format := "", ptrs := List.range cells.length }, insts := [] : Opts.St }
+      let natD (x : Json) (k : String) : Nat := match x.getObjVal? k with
+        | .ok v => (v.getNat?.toOption).getD 0 | _ => 0
+      let (_, outs) ← steps.toList.foldlM (fun (acc : Opts.St × List Json) (x : Json) => do
+        let st := acc.1
+        match optStr x "s" with
+        | "new" => do
+            let settings ← (← arrOf (← x.getObjVal? "settings")).toList.mapM settingOf
+            let st' := Opts.step st (.new settings)
+            pure (st', acc.2 ++ [Json.mkObj [("cfgs", Json.arr ((st'.insts.map (Opts.deref st'.store)).map jCfg).toArray)]])
+        | "mutate" => do
+            let st' := Opts.step st (.mutate (natD x "i") (natD x "k") (optStr x "key") (optStr x "val"))
+            pure (st', acc.2 ++ [Json.mkObj [("cfgs", Json.arr ((st'.insts.map (Opts.deref st'.store)).map jCfg).toArray)]])
+        | "call" => do
+            -- a single call with its own options: effective format and cell k; the state is unchanged
+            let i := natD x "i"
+            let k := natD x "k"
+            let inst := (st.insts.map (Opts.deref st.store))[i]?
+            let callFmt := optStr x "f"
+            let callCell : Option Opts.Cell := match x.getObjVal? "cell" with
+              | .ok Json.null => none
+              | .ok v => some (cellOf v)
+              | _ => none
+            let eff := match inst with
+              | some c =>
+                let f := if callFmt = "" then c.1 else callFmt
+                let cell := match callCell with | some cc => cc | none => (c.2[k]?).getD []
+                Json.mkObj [("format", Json.str f), ("cell", jCell cell)]
+              | none => Json.str "no-instance"
+            pure (st, acc.2 ++ [Json.mkObj [("eff", eff),
+              ("cfgs", Json.arr ((st.insts.map (Opts.deref st.store)).map jCfg).toArray)]])
+        | s => throw s!"step {s}") (st0, [])
+      pure (Json.arr outs.toArray)
   | "newId" => do
       let seeds ← (← arrOf (← j.getObjVal? "seeds")).toList.mapM (fun (sd : Json) => do
         let bs ← arrOf sd
